@@ -31,6 +31,10 @@ def unary_ops(d, mom):
             ("neg2D", lambda v: v.neg2D), ("rotateZ", lambda v: v.rotateZ(0.3)), ("transform2D", lambda v: v.transform2D(M2)),
             ("-v", lambda v: -v), ("+v", lambda v: +v), ("v*2.5", lambda v: v * 2.5), ("1.5*v", lambda v: 1.5 * v), ("v/4", lambda v: v / 4.0),
             ("equal(self)", lambda v: v.equal(v)), ("isclose(self)", lambda v: v.isclose(v)), ("v==v", lambda v: v == v), ("v!=v", lambda v: v != v),
+            ("numpy.isclose(self)", lambda v: np.isclose(v, v)), ("numpy.equal(self)", lambda v: np.equal(v, v)), ("numpy.not_equal(self)", lambda v: np.not_equal(v, v)),
+            ("isclose(nearby,loose)", lambda v: v.isclose(v.scale(1.0000001), rtol=1e-3, atol=1e-3)), ("isclose(nearby,tight)", lambda v: v.isclose(v.scale(1.0000001), rtol=1e-12, atol=1e-12)),
+            ("numpy.isclose(nearby,loose)", lambda v: np.isclose(v, v.scale(1.0000001), rtol=1e-3, atol=1e-3)),
+            ("numpy.isclose(nearby,tight)", lambda v: np.isclose(v, v.scale(1.0000001), rtol=1e-12, atol=1e-12)), ("equal(nearby)", lambda v: v.equal(v.scale(1.0000001))),
             ("abs", lambda v: abs(v)), ("v**2", lambda v: v ** 2), ("v**3", lambda v: v ** 3), ("numpy.sqrt", lambda v: np.sqrt(v)), ("numpy.cbrt", lambda v: np.cbrt(v)),
             ("numpy.power(v,3)", lambda v: np.power(v, 3)), ("numpy.absolute", lambda v: np.absolute(v)), ("numpy.square", lambda v: np.square(v)),
             ("to_Vector2D", lambda v: v.to_Vector2D()), ("to_Vector3D", lambda v: v.to_Vector3D()), ("to_Vector4D", lambda v: v.to_Vector4D()),
@@ -64,7 +68,10 @@ def binary_ops(d, d2):
     if d == d2:
         ops += [("add", lambda a, b: a.add(b)), ("subtract", lambda a, b: a.subtract(b)), ("a+b", lambda a, b: a + b), ("a-b", lambda a, b: a - b),
                 ("dot", lambda a, b: a.dot(b)), ("a@b", lambda a, b: a @ b), ("equal", lambda a, b: a.equal(b)), ("a==b", lambda a, b: a == b), ("a!=b", lambda a, b: a != b),
-                ("not_equal", lambda a, b: a.not_equal(b)), ("isclose", lambda a, b: a.isclose(b, rtol=1e-3, atol=1e-3))]
+                ("not_equal", lambda a, b: a.not_equal(b)), ("isclose", lambda a, b: a.isclose(b, rtol=1e-3, atol=1e-3)),
+                ("numpy.equal", lambda a, b: np.equal(a, b)), ("numpy.not_equal", lambda a, b: np.not_equal(a, b)),
+                ("numpy.isclose", lambda a, b: np.isclose(a, b, rtol=1e-3, atol=1e-3)), ("numpy.allclose", lambda a, b: np.allclose(a, b, rtol=1e-3, atol=1e-3)),
+                ("allclose", lambda a, b: a.allclose(b, rtol=1e-3, atol=1e-3))]
         if d <= 3:
             ops += [("is_parallel", lambda a, b: a.is_parallel(b, 0.3)), ("is_antiparallel", lambda a, b: a.is_antiparallel(b, 0.3)), ("is_perpendicular", lambda a, b: a.is_perpendicular(b, 0.3))]
     if d >= 3 and d2 >= 3:
@@ -79,6 +86,18 @@ def binary_ops(d, d2):
     if d == 4 and d2 == 3:
         ops += [("boost_beta3", lambda a, b: a.boost_beta3(b.scale(0.12))), ("boost(3D)", lambda a, b: a.boost(b.scale(0.12)))]
     return ops
+
+
+# the object backend does not implement the NumPy *function* forms of the comparisons (numpy.isclose(obj, obj) raises inside NumPy);
+# the reference for them is the method form, with which the statement (C12) requires them to agree
+OBJECT_FORM = {
+    "numpy.isclose(self)": lambda v: v.isclose(v), "numpy.equal(self)": lambda v: v.equal(v), "numpy.not_equal(self)": lambda v: v.not_equal(v),
+    "numpy.isclose(nearby,loose)": lambda v: v.isclose(v.scale(1.0000001), rtol=1e-3, atol=1e-3),
+    "numpy.isclose(nearby,tight)": lambda v: v.isclose(v.scale(1.0000001), rtol=1e-12, atol=1e-12),
+    "numpy.equal": lambda a, b: a.equal(b), "numpy.not_equal": lambda a, b: a.not_equal(b),
+    "numpy.isclose": lambda a, b: a.isclose(b, rtol=1e-3, atol=1e-3),
+}
+OP_FILTER = None        # optional predicate on operation names: restricts the lattice to the operations of one property (set before the pool forks)
 
 
 class Fails:
@@ -159,6 +178,10 @@ def run_unary(F, system, mom, layouts, seed, extras_layouts=("ak-jagged", "ak-re
         v, struct = AR.build(layout, system, mom, rng, extras=ext)
         O = objs(struct, system, mom)
         for name, op in unary_ops(d, mom):
+            if OP_FILTER is not None and not OP_FILTER(name):
+                continue
+            if layout.startswith("ak") and name.startswith("numpy.isclose"):
+                continue        # probed separately (known finding C12 'numpy.isclose on Awkward vector arrays is Awkward's field-wise isclose')
             if layout == "ak-record" and name in RECORD_OPERATOR_OPS:
                 continue        # probed separately (probes(): known finding C18 'operators on records')
             tag = f"{name}[{','.join(system)}|{'mom' if mom else 'gen'}|{layout}]"
@@ -169,7 +192,7 @@ def run_unary(F, system, mom, layouts, seed, extras_layouts=("ak-jagged", "ak-re
             except Exception as e:
                 # is the operation defined on the object backend? then it must be defined here too
                 try:
-                    _struct_map_obj(O, op)
+                    _struct_map_obj(O, OBJECT_FORM.get(name, op))
                     F.check("C03", f"defined/{tag}", False, f"{type(e).__name__}: {str(e)[:160]}")
                 except Exception:
                     pass
@@ -177,7 +200,7 @@ def run_unary(F, system, mom, layouts, seed, extras_layouts=("ak-jagged", "ak-re
             F.check("C16", f"operand-unchanged/{tag}", AR.snapshot(v) == snap, "operand modified by the call")
             try:
                 with np.errstate(all="ignore"):
-                    expected = _struct_map_obj(O, op)
+                    expected = _struct_map_obj(O, OBJECT_FORM.get(name, op))
             except Exception as e:
                 F.check("C03", f"object-reference/{tag}", False, f"object backend raises {type(e).__name__}: {e}")
                 continue
@@ -241,7 +264,7 @@ def prio(layout):
     return PRIORITY["object" if layout == "object" else layout[:2]]
 
 
-RECORD_OPERATOR_OPS = {"v==v", "v!=v", "abs", "v**2", "v**3", "numpy.sqrt", "numpy.cbrt", "numpy.power(v,3)", "numpy.absolute", "numpy.square"}
+RECORD_OPERATOR_OPS = {"v==v", "v!=v", "numpy.equal(self)", "numpy.not_equal(self)", "abs", "v**2", "v**3", "numpy.sqrt", "numpy.cbrt", "numpy.power(v,3)", "numpy.absolute", "numpy.square"}
 
 
 PAIRINGS = [("np(3)", "np(3)"), ("ak-jagged", "ak-jagged"), ("np(3)", "object"), ("object", "np(3)"), ("ak-jagged", "object"), ("object", "ak-jagged"),
@@ -260,21 +283,24 @@ def run_binary(F, s1, s2, m1, m2, pairings, seed):
             continue
         OA, OB = objs(sa, s1, m1), objs(sb, s2, m2)
         for name, op in binary_ops(d, d2):
+            if OP_FILTER is not None and not OP_FILTER(name):
+                continue
             if name == "rotate_axis" and prio(l2) > prio(l1):
                 continue        # an axis of a higher-priority backend cannot be broadcast into the lower-priority result (by design)
             if name == "a@b" and (l1.startswith("ak") or l2.startswith("ak")):
                 continue        # probed separately (known finding C05 '@ on Awkward')
-            if name in ("a==b", "a!=b") and "ak-record" in (l1, l2):
+            if name in ("a==b", "a!=b", "numpy.equal", "numpy.not_equal") and "ak-record" in (l1, l2):
                 continue        # probed separately (known finding C18 'operators on records')
-            if name.startswith("boost") and l1 == "object" and l2.startswith("ak") and "tau" in s1:
-                continue        # probed separately (known finding C03 'tau-stored object boosted by an Awkward booster')
+            if name in ("numpy.isclose", "numpy.allclose") and (l1.startswith("ak") or l2.startswith("ak")):
+                continue        # probed separately (known finding C12 'numpy.isclose on Awkward vector arrays')
             if name in ("a+b", "a-b") and {l1[:2], l2[:2]} == {"ak", "np"}:
                 continue        # probed separately (known finding C05 'operator between Awkward and NumPy momentum arrays')
             tag = f"{name}[{','.join(s1)}|{'mom' if m1 else 'gen'}|{l1}]x[{','.join(s2)}|{'mom' if m2 else 'gen'}|{l2}]"
             snaps = (AR.snapshot(a), AR.snapshot(b))
             try:
                 with np.errstate(all="ignore"):
-                    expected = AR.struct_zip(sa, sb, lambda x, y: op(AR.obj_of(s1, m1, x), AR.obj_of(s2, m2, y)))
+                    oop = OBJECT_FORM.get(name, op)
+                    expected = AR.struct_zip(sa, sb, lambda x, y: oop(AR.obj_of(s1, m1, x), AR.obj_of(s2, m2, y)))
             except Exception:
                 continue
             try:
@@ -360,6 +386,8 @@ def probes():
         probe("C05", "matmul-operator-awkward-with-object", lambda: AR.close(ak.to_list(a2 @ o2), ak.to_list(a2.dot(o2))))
         probe("C05", "operator-add-awkward-generic-with-numpy-momentum-keeps-flavor", lambda: isinstance(a2 + m2, vector.Momentum) and isinstance(m2 + a2, vector.Momentum))
         probe("C05", "method-add-awkward-generic-with-numpy-momentum-keeps-flavor", lambda: isinstance(a2.add(m2), vector.Momentum) and isinstance(m2.add(a2), vector.Momentum))
+        for _p in ("C03", "C12"):
+            probe(_p, "numpy-isclose-on-awkward-array-is-the-vector-isclose", lambda: ak.to_list(np.isclose(a2, a2)) == ak.to_list(a2.isclose(a2)) == [True, True])
         probe("C18", "record-operators/eq", lambda: bool(rec == rec) is True and bool(rec != rec) is False)
         probe("C18", "record-operators/abs-and-power", lambda: AR.close(abs(rec), rec.rho) and AR.close(rec ** 2, rec.rho2) and AR.close(np.sqrt(rec), rec.rho ** 0.5))
         probe("C03", "tau-stored-object-boosted-by-awkward-booster", lambda: AR.close(ak.to_list(o4.boost_p4(a4).t), [[o4.boost_p4(vector.obj(x=1.0, y=2.0, z=3.0, t=10.0)).t], []]))
